@@ -115,7 +115,7 @@ func crashOrGuard(r *drv.Run, res *wire.Result, c *wire.Case, src string, strict
 			return true
 		}
 		if res.Guard != "" && !strict {
-			r.Inconclusive("guard " + res.Guard + " tripped")
+			r.Inconclusive("guard " + res.Guard + " tripped on: " + oneLineN(src, 70))
 			return true
 		}
 		sig := "worker-died"
